@@ -1061,6 +1061,51 @@ def propagated_error_kinds(body):
     return prop, other
 
 
+ENTRY_ARGS = {1: "region", 2: "service", 3: "get_signing_key", 4: "server_timestamp", 5: "required_headers", 6: "options"}
+
+
+def wrapper_results(ctx, rule, positions, VIOL, PASS, why):
+    """Second ways in: every function of the crate (other than the entry point itself) that calls sigv4_validate_request is
+    a wrapper offering another route to the same verdict. For the argument positions given, what it passes must be one of
+    its own parameters as it is (or an exact From / Into conversion of one): a clock converted through milliseconds, a
+    region picked from a list, options rebuilt from flags make the guarantee depend on the route taken."""
+    n = 0
+    for body in ctx.facts.all_bodies():
+        if body.kind not in ("Fn", "AssocFn", "Closure") or re.match(r"^signature::sigv4_validate_request(::\{closure#\d+\})*$", body.path):
+            continue
+        for bi, t in body.calls(r"^signature::sigv4_validate_request$"):
+            for pos in positions:
+                n += 1
+                nm = ENTRY_ARGS[pos]
+                key = "wrapper/%s/%s" % (body.path, nm)
+                if pos >= len(t["args"]):
+                    yield VIOL(rule, key, "call of sigv4_validate_request with %d arguments" % len(t["args"]), where=body.span_of_block(bi))
+                    continue
+                o = t["args"][pos]
+                ok = False
+                for _ in range(4):
+                    od = body.origin_def(o)
+                    if od and od[0] == "def" and od[1]["kind"] == "call" and re.search(r"convert::(From::from|Into::into)$|Clone::clone$|Deref(Mut)?::deref(_mut)?$|Borrow(Mut)?::borrow(_mut)?$", od[1]["term"]["callee"]):
+                        o = od[1]["term"]["args"][0]
+                        continue
+                    if od and od[0] == "param":
+                        ok = True
+                    elif od and od[0] == "place" and od[1]["local"] == 1 and body.j.get("coroutine_kind"):
+                        nd = [e for e in od[1]["proj"] if e != "deref"]
+                        ok = len(nd) == 1 and isinstance(nd[0], dict) and "field" in nd[0]
+                    break
+                if ok:
+                    sl = body.slice_op(t["args"][pos])
+                    ok = not [c_ for c_ in sl.callee_names() if not re.search(r"convert::(From::from|Into::into)$|Clone::clone$|Deref(Mut)?::deref(_mut)?$|Borrow(Mut)?::borrow(_mut)?$", c_)] and not [d for d in sl.assigns if d["stmt"]["rv"]["k"] in ("binop", "unop")]
+                if not ok:
+                    yield VIOL(rule, key, "`%s` calls sigv4_validate_request with a `%s` that is not one of its own parameters as it is: %s" % (body.path.split("::{")[0], nm, why), where=body.span_of_block(bi))
+                else:
+                    yield PASS(rule, key, "`%s` handed on unchanged" % nm, [])
+    ctx.count(max(1, n))
+    if not n:
+        yield PASS(rule, "wrapper/none", "no other function of the crate calls the entry point", [])
+
+
 # calls that change a text / byte string's content (as opposed to re-typing, borrowing, copying, concatenating it)
 TRANSFORM = (r"(str>|\[u8\]>|\[T\]>|String|Vec::<T, A>|canonical)::(trim\w*|strip_\w+|to_(ascii_)?(lower|upper)case|make_ascii_(lower|upper)case|replace\w*|truncate|pop|remove|drain|retain\w*|dedup\w*|sort\w*|reverse|"
              r"r?split\w*|chars|char_indices|bytes|escape_\w+|encode_upper|to_uppercase|to_lowercase|repeat|swap\w*|rotate_\w+|fill\w*|insert|insert_str|splice)$"
